@@ -1,19 +1,19 @@
 SPECIFICATION MCLive
 CONSTANTS
-  Calls = {"k1", "k2"}
-  CCl = {"c1"}
-  SCl = {}
-  Stateless = TRUE
-  Timeout = FALSE
-  Sse = FALSE
-  Nested = FALSE
-  Faults = {"cut"}
+  Calls = {"k1"}
+  CCl = {}
+  SCl = {"s1"}
+  Stateless = FALSE
+  Timeout = TRUE
+  Sse = TRUE
+  Nested = TRUE
+  Faults = {"vanish"}
   DelModes = {}
   Helds = FALSE
   Notifs = FALSE
-  Cancels = FALSE
+  Cancels = TRUE
   AwaitHandlers = TRUE
   StopSseOnClose = TRUE
 VIEW MCView
-PROPERTIES SrvCloseReturns CliCloseReturns SrvNoLeftovers
+PROPERTIES SrvCloseReturns SrvWaitReturns CliWaitReturns SrvNoLeftovers CliNoLeftovers
 CHECK_DEADLOCK FALSE
